@@ -3,7 +3,7 @@ import Drivers.Common
 /-! Line protocol of the `cache` model (C10).
 
 Declarations (answer `ok`): `variant copy|alias`, `specs N`, `arrays N`, `key <id> <lens> <inner|->`.
-Memo ops: `call K` → `h<N> clean|dirty c.i,…`, `read H` → `clean|dirty …`, `mutate H C I` → `ok`,
+Memo ops: `call K` → `h<N> clean|dirty c.i,…`, `read H` → `clean|dirty …` (relative to the value handed out plus the caller's own writes through H), `mutate H C I` → `ok`,
 `scribble` → `ok`.  World ops: `new S`, `qnew kind p`, `copy O`, `clone Q` → `o<N>`; `next O n`,
 `pop Q n` → the lineage name of the chunk; `reset O`, `append Q G t d`, `appendw Q W t d`,
 `seed x`, `rand n` → `ok`. -/
@@ -14,6 +14,7 @@ structure DState where
   variant : Variant := .copy
   table : List (List Nat × Option Nat) := []     -- per key id: component lengths, wrapped key
   cs : State Nat Nat Nat := State.init
+  expect : List (List (List Nat)) := []           -- per handle: the value handed out + the caller's own writes
   w : World := World.init
 
 def sigOf (table : List (List Nat × Option Nat)) : Sig Nat Nat Nat :=
@@ -106,27 +107,28 @@ def step (s : DState) (ws : List String) : DState × String :=
     | some key =>
       let h := s.cs.handles.length
       let cs := call s.variant sg s.cs key
-      ({ s with cs := cs }, s!"h{h} " ++ verdict (readHandle cs h) (sg.value key))
+      ({ s with cs := cs, expect := s.expect ++ [sg.value key] },
+        s!"h{h} " ++ verdict (readHandle cs h) (sg.value key))
     | none => (s, "bad-op")
   | ["read", h] =>
     match parseNat? h with
     | some h =>
-      match s.cs.handles[h]? with
-      | none => (s, "bad-handle")
-      | some as =>
-        -- the reference is the all-zero tuple of the same shape
-        let got := readAll s.cs.heap as
-        (s, verdict got ((got.getD []).map fun a => a.map fun _ => 0))
+      match s.cs.handles[h]?, s.expect[h]? with
+      | some as, some e => (s, verdict (readAll s.cs.heap as) e)
+      | _, _ => (s, "bad-handle")
     | none => (s, "bad-op")
   | ["mutate", h, c, i] =>
     match parseNat? h, parseNat? c, parseNat? i with
     | some h, some c, some i =>
       match mutate s.cs h c i 1 with
-      | .ok cs => ({ s with cs := cs }, "ok")
+      | .ok cs =>
+        let e := s.expect.modify h fun t => t.modify c fun a => a.set i 1
+        ({ s with cs := cs, expect := e }, "ok")
       | .error .badHandle => (s, "bad-handle")
       | .error .badIndex => (s, "bad-index")
     | _, _, _ => (s, "bad-op")
-  | ["scribble"] => ({ s with cs := scribble s.cs 1 }, "ok")
+  | ["scribble"] =>
+    ({ s with cs := scribble s.cs 1, expect := s.expect.map fun t => t.map fun a => a.map fun _ => 1 }, "ok")
   | _ =>
     match parseWOp ws with
     | some op =>
